@@ -25,7 +25,8 @@ UNIVERSE = ['k1', 'k2', 'k3', 'k4', 'k5', 'k6', 'k7', 'k8', 'kb']
 
 
 class Scenario:
-    def __init__(self, name, pre, op, adds=(), deletes=(), target=10 ** 9, repack=False, kind='', damaged=()):
+    def __init__(self, name, pre, op, adds=(), deletes=(), target=10 ** 9, repack=False, kind='', damaged=(),
+                 default_sync=True):
         self.name = name
         self.pre = pre  # list of (key, form) with form in loose / packed / packedz / both / bothz
         self.op = op  # callable(container, contents) -> result
@@ -35,6 +36,7 @@ class Scenario:
         self.repack = repack
         self.kind = kind or name.split(':')[0]
         self.damaged = list(damaged)
+        self.default_sync = default_sync  # False: the call passes do_fsync=False (outside C06, inside C05/C17)
 
     def acked(self):
         return sorted({k for k, _ in self.pre})
@@ -68,10 +70,11 @@ def _add(key, stream=False):
     return op
 
 
-def _pack(mode, perpack, validate=True):
+def _pack(mode, perpack, validate=True, do_fsync=True):
     def op(cont, contents):  # pylint: disable=unused-argument
         from disk_objectstore import CompressMode  # pylint: disable=import-outside-toplevel
-        cont.pack_all_loose(compress=CompressMode[mode], clean_loose_per_pack=perpack, validate_objects=validate)
+        cont.pack_all_loose(compress=CompressMode[mode], clean_loose_per_pack=perpack, validate_objects=validate,
+                            do_fsync=do_fsync)
     return op
 
 
@@ -81,13 +84,13 @@ def _clean(vacuum):
     return op
 
 
-def _addpack(keys, z, noholes, twice, streamed=False):
+def _addpack(keys, z, noholes, twice, streamed=False, do_fsync=True):
     def op(cont, contents):
         if streamed:
             return cont.add_streamed_objects_to_pack([io.BytesIO(contents[k]) for k in keys], compress=z,
-                                                     no_holes=noholes, no_holes_read_twice=twice)
+                                                     no_holes=noholes, no_holes_read_twice=twice, do_fsync=do_fsync)
         return cont.add_objects_to_pack([contents[k] for k in keys], compress=z, no_holes=noholes,
-                                        no_holes_read_twice=twice)
+                                        no_holes_read_twice=twice, do_fsync=do_fsync)
     return op
 
 
@@ -110,7 +113,7 @@ def _loosen(key):
     return op
 
 
-def _import(keys, src_forms, budget, same=True, z=False):
+def _import(keys, src_forms, budget, same=True, z=False, do_fsync=True):
     def op(cont, contents):
         from disk_objectstore import Container  # pylint: disable=import-outside-toplevel
         src_folder = os.path.join(os.path.dirname(str(cont.get_folder())), 'src')
@@ -125,7 +128,7 @@ def _import(keys, src_forms, budget, same=True, z=False):
                     src.add_objects_to_pack([contents[key]], compress=form == 'packedz')
         try:
             wanted = [hashlib.new(src_hash, contents[k]).hexdigest() for k in keys]
-            return cont.import_objects(wanted, src, compress=z, target_memory_bytes=budget)
+            return cont.import_objects(wanted, src, compress=z, target_memory_bytes=budget, do_fsync=do_fsync)
         finally:
             src.close()
     return op
@@ -162,6 +165,24 @@ def all_scenarios(thorough=False):
                           adds=['k5', 'k6', 'k8', 'k1', 'k7'], target=300))
     s.append(Scenario('import:diff-b200', pre_pack, _import(['k5', 'k6', 'k8', 'k1', 'k7'], src_forms, 200, same=False, z=True),
                       adds=['k5', 'k6', 'k8', 'k1', 'k7'], target=300))
+    # intermediate cache flushes followed by a roll-over to a new pack file (small budget, small pack target)
+    many = [('k1', 'packed'), ('k2', 'loose'), ('k3', 'packedz'), ('k6', 'packed'), ('k7', 'loose'), ('k8', 'packed')]
+    for budget, target in ((60, 30), (170, 30), (60, 160)):
+        s.append(Scenario(f'import:same-b{budget}-t{target}', [('k5', 'packed')],
+                          _import(['k1', 'k2', 'k3', 'k6', 'k7', 'k8'], many, budget), adds=['k1', 'k2', 'k3', 'k6', 'k7', 'k8'],
+                          target=target))
+    s.append(Scenario('import:diff-b60-t30', [('k5', 'packed')],
+                      _import(['k1', 'k2', 'k3', 'k6', 'k7', 'k8'], many, 60, same=False), adds=['k1', 'k2', 'k3', 'k6', 'k7', 'k8'],
+                      target=30))
+    # non-default do_fsync=False variants (C05 and C17 quantify over parameter variants; C06 is about the defaults)
+    s.append(Scenario('pack:NO-perpack1-nofsync', loose_many, _pack('NO', True, do_fsync=False), target=100, default_sync=False))
+    s.append(Scenario('pack:YES-perpack0-nofsync', loose_many, _pack('YES', False, do_fsync=False), default_sync=False))
+    s.append(Scenario('addpack:nh1-tw0-z0-nofsync', pre_pack, _addpack(['k5', 'k1', 'k6', 'k5', 'k3', 'k7'], False, True, False,
+                                                                   do_fsync=False),
+                      adds=['k5', 'k6', 'k7', 'k1', 'k3'], target=250, default_sync=False))
+    s.append(Scenario('import:same-b60-t30-nofsync', [('k5', 'packed')],
+                      _import(['k1', 'k2', 'k3', 'k6', 'k7', 'k8'], many, 60, do_fsync=False),
+                      adds=['k1', 'k2', 'k3', 'k6', 'k7', 'k8'], target=30, default_sync=False))
     mixed = [('k1', 'loose'), ('k2', 'packed'), ('k3', 'packedz'), ('k5', 'both'), ('k6', 'packed'), ('k8', 'bothz')]
     s.append(Scenario('delete:loose', mixed, _delete(['k1']), deletes=['k1']))
     s.append(Scenario('delete:packed', mixed, _delete(['k2', 'k3']), deletes=['k2', 'k3']))
